@@ -11,6 +11,8 @@
 -/
 import DisjointImpls.Lemmas.GroupLemmas
 import DisjointImpls.Lemmas.RowsOwn
+import DisjointImpls.Lemmas.EndToEndNested
+import DisjointImpls.Lemmas.Acyclic
 namespace DI
 
 /-! ## Part 1 — the candidate filter -/
@@ -545,5 +547,130 @@ theorem C11_rows_own_examples :
      | _ => false) = true := by
   constructor <;> with_unfolding_all decide
 end RowsOwnExamples
+
+/-! ## Part 7 — the substitution of the search is the matcher's answer; the family's keys instantiate to the members' own keys
+  (`Lemmas/EndToEndNested.lean`) -/
+
+/-- in the environment of `parseGroups`, the substitution with which the search lets a block with header `hdr` join the
+    family `gid` (`memberSubst`: the entry `make_sets` recorded, or the self-match) is the answer of the matcher on the two
+    headers — the substitution `Bounds.mkMember` recomputes for the refinement. No side condition. -/
+theorem C11_memberSubst_is_matcher_answer (items : List T) (gid hdr : T) (σ : Subst)
+    (h : memberSubst (parseEnv items) gid hdr = some σ) : ∃ l, sup gid hdr = .yes σ l :=
+  memberSubst_sup_nst h
+
+/-- ROWS ARE THE ROWS OF INSTANCES OF THE FAMILY'S KEYS. In a family of an accepted grouping that passes the executable check
+    `nestedGroupOK` (Lemmas/EndToEndNested.lean, described in Props/C02.lean: exact header instance, founding member
+    identity, `untouched` — the D4 condition — and `instCommOK_nst` for the own keys re-expressed to family keys,
+    well-formed paths, leading `::`, no `?Trait`), row `i` of every dispatch key `kr` is the folded binding row of member `i`
+    for an own key `k'` that IS the instance of the family's key under the member's substitution `θ = memberTheta_nst …`
+    (the matcher's answer): the bounded type exactly, the trait path up to `normTr`. Without the check this is false
+    (finding D4: `C02_end_to_end_memberOK_counterexample_D4`). -/
+theorem C11_rows_are_instances (items : List T) (groups : Groups) (h : parseGroups items = .ok groups) :
+    ∀ e ∈ groups, nestedGroupOK (parseEnv items) e = true →
+      ∀ kr ∈ e.2.1.bounds, ∀ (i : Nat) (b : Blk) (r : Row), e.2.2[i]? = some b → kr.2[i]? = some r →
+        ∃ k', (k', r) ∈ otherFold b ∧ inst (memberTheta_nst e.1 b) kr.1.1 = k'.1 ∧
+          inst (memberTheta_nst e.1 b) (normTr kr.1.2) = normTr k'.2 := by
+  intro e he hok kr hkr i b r hb hr
+  obtain ⟨k', hk', sk, hsk, hs⟩ := C11_rows_own_bindings items groups h e he kr hkr i b r hb hr
+  exact ⟨k', hk', nested_key_instance h he hok hb (k := kr.1) (rows := kr.2) hkr hk' hsk hs⟩
+
+section RowsInstances
+open Ex11
+set_option maxRecDepth 1000000
+
+/-- non-vacuity: the nested pair `impl<T: Dispatch<Group = GroupA>> Kita for T` /
+    `impl<T> Kita for Vec<T> where Vec<T>: Dispatch<Group = GroupB>` is accepted as one family with two members whose group
+    passes `nestedGroupOK`, and the second member's substitution is not the identity -/
+example :
+    let items := [blockSelf "GroupA" tT, implW [tyParam "T" []] [pred (vecOf tT) [traitBound (dispatch "GroupB")]] (vecOf tT)]
+    (match parseGroups items with
+     | .ok gs => gs.map (fun (e : T × ABG × List Blk) => (e.2.2.length, e.2.1.bounds.map (fun kr => kr.2.length))) == [(2, [2])] &&
+         gs.all (fun e => nestedGroupOK (parseEnv items) e &&
+           e.2.2.any (fun b => !allIdentity (memberTheta_nst e.1 b)))
+     | _ => false) = true := by decide +kernel
+end RowsInstances
+
+/-! ## Part 8 — acyclicity from the shape of the headers: the partition statement without a hypothesis on the relation
+
+`headersWF items` (executable, `Lemmas/Acyclic.lean: headersWFIds`): every bucket header `g` satisfies the side
+conditions of the transitivity theorem `C09_trans` — `okT_tr g` (no lenient / panicking kind, no `'_`, well-shaped
+generic arguments) and `presInj_tr g` (no type spelled in two ways inside `g`) — and whenever a header `g1`
+generalises a header `g2`, the ignored children of `g1` face ignored children of `g2` (`faces_tr g1 (stripTop g2)`;
+decoded trees of one syntactic category always do, up to a leading `::`). Then "generalises" is transitive on the
+headers (`C11_headers_transitive`), the relation recorded by `make_sets` lies inside a strict order (among mutually
+generalising headers only the earlier one is recorded as the generaliser, lib.rs:1022-1031), and Kahn's iteration
+`acyclicB` succeeds. -/
+
+/-- the executable per-input condition on the bucket headers -/
+def headersWF (items : List T) : Bool := headersWFIds ((mkBuckets (items.map mkBlk)).map (·.1))
+
+/-- the stronger, purely shape-based variant: the ignored children face each other for EVERY ordered pair of headers,
+    whether or not one generalises the other -/
+def headersWFStrict (items : List T) : Bool :=
+  let ids := (mkBuckets (items.map mkBlk)).map (·.1)
+  ids.all (fun g => okT_tr g && presInj_tr g) && ids.all (fun g1 => ids.all (fun g2 => faces_tr g1 (stripTop g2)))
+
+theorem C11_headersWF_of_strict (items : List T) (h : headersWFStrict items = true) : headersWF items = true := by
+  simp only [headersWFStrict, headersWF, headersWFIds, Bool.and_eq_true, List.all_eq_true, Bool.or_eq_true] at h ⊢
+  exact ⟨h.1, fun g1 h1 g2 h2 => Or.inr (h.2 g1 h1 g2 h2)⟩
+
+/-- on well-formed headers "the matcher answers yes" is transitive -/
+theorem C11_headers_transitive (items : List T) (hw : headersWF items = true) :
+    ∀ a ∈ (mkBuckets (items.map mkBlk)).map (·.1), ∀ b ∈ (mkBuckets (items.map mkBlk)).map (·.1),
+    ∀ c ∈ (mkBuckets (items.map mkBlk)).map (·.1), supYes a b = true → supYes b c = true → supYes a c = true :=
+  transOn_of_headersWF_tr hw
+
+/-- ACYCLICITY: for well-formed headers the generalisation relation recorded by `make_sets` is acyclic -/
+theorem C11_acyclic_of_headersWF (items : List T) (hw : headersWF items = true) : acyclicB items = true :=
+  acyclicIds_of_headersWF_tr (mkBuckets_ids_nodup _) hw
+
+/-- PARTITION: every block is placed exactly once in every accepted grouping — the members of all families are a
+    rearrangement of the blocks of all buckets — for inputs whose headers are well-formed (`headersWF`, a condition on
+    the shape of the headers; nothing is assumed about the generalisation relation among them) -/
+theorem C11_partition (items : List T) (groups : Groups) (h : parseGroups items = .ok groups)
+    (hw : headersWF items = true) :
+    (groups.flatMap (fun e => e.2.2)).Perm ((mkBuckets (items.map mkBlk)).flatMap (fun bk => bk.2)) :=
+  C11_partition_acyclic items groups h (C11_acyclic_of_headersWF items hw)
+
+/-- … and the counters unlock every header exactly once -/
+theorem C11_traceCovers_of_headersWF (items : List T) (groups : Groups) (h : parseGroups items = .ok groups)
+    (hw : headersWF items = true) : traceCovers items = true :=
+  C11_traceCovers_of_acyclic items groups h (C11_acyclic_of_headersWF items hw)
+
+section HeadersWF
+open Ex11
+set_option maxRecDepth 1000000
+
+/-- `headersWF` (even `headersWFStrict`) holds on: the chain `T ⊐ Vec<T> ⊐ Vec<Vec<T>>`; the diamond
+    `(T,U) ⊐ (Vec<T>,U), (T,Vec<U>) ⊐ (Vec<T>,Vec<U>)`; the twin headers `(T)` / `T`; and `T ⊐ Vec<T>, (Vec<T>)` -/
+theorem C11_headersWF_examples :
+    headersWFStrict [blockSelf "GroupA" tT, blockSelf "GroupB" (vecOf tT), blockSelf "GroupC" (vecOf (vecOf tT))] = true ∧
+    headersWFStrict [blockSelf2 "GroupA" (tup [tT, tU]), blockSelf2 "GroupB" (tup [vecOf tT, tU]),
+      blockSelf2 "GroupC" (tup [tT, vecOf tU]), blockSelf2 "GroupD" (tup [vecOf tT, vecOf tU])] = true ∧
+    headersWFStrict [blockSelf "GroupA" (paren tT), blockSelf "GroupB" tT] = true ∧
+    headersWFStrict [blockSelf "GroupA" tT, blockSelf "GroupB" (vecOf tT), blockSelf "GroupC" (paren (vecOf tT))] = true := by
+  with_unfolding_all decide
+
+/-- the diamond is accepted and, by `C11_partition`, all four blocks are placed exactly once -/
+example :
+    let items := [blockSelf2 "GroupA" (tup [tT, tU]), blockSelf2 "GroupB" (tup [vecOf tT, tU]),
+      blockSelf2 "GroupC" (tup [tT, vecOf tU]), blockSelf2 "GroupD" (tup [vecOf tT, vecOf tU])]
+    ∃ gs, parseGroups items = .ok gs ∧
+      (gs.flatMap (fun e => e.2.2)).Perm ((mkBuckets (items.map mkBlk)).flatMap (fun bk => bk.2)) := by
+  intro items
+  obtain ⟨gs, hgs, _⟩ := ParseResult.ok_of_check (r := parseGroups items) (f := fun _ => true)
+    (by with_unfolding_all decide)
+  exact ⟨gs, hgs, C11_partition items gs hgs (C11_headersWF_of_strict _ C11_headersWF_examples.2.1)⟩
+
+/-- the twin headers `(T)` / `T` (they generalise each other): accepted, both blocks in one family -/
+example :
+    let items := [blockSelf "GroupA" (paren tT), blockSelf "GroupB" tT]
+    ∃ gs, parseGroups items = .ok gs ∧
+      (gs.flatMap (fun e => e.2.2)).Perm ((mkBuckets (items.map mkBlk)).flatMap (fun bk => bk.2)) := by
+  intro items
+  obtain ⟨gs, hgs, _⟩ := C11_partition_mutual_headers_pair
+  exact ⟨gs, hgs, C11_partition items gs hgs (C11_headersWF_of_strict _ C11_headersWF_examples.2.2.1)⟩
+
+end HeadersWF
 
 end DI
